@@ -13,6 +13,8 @@ func VerifC01_type3_honest() {
 	vAssume(secret[0] != 0)
 	client := NewRateLimitedClientFromSecret(secret)
 	challenge := vBytesC("challenge", 0, vBound("C01_challenge3", 1, 70))
+	// the two lengths are varied one at a time (their product is beyond the thorough budget)
+	vAssume(len(origin) <= 1 || len(challenge) <= 1)
 	nonce := vBytes("nonce", 32, 32)
 	blind := vBytes("blind", 48, 48)
 	vAssume(blind[0] != 0)
